@@ -44,8 +44,12 @@ func GoEnv() []string {
 		env = append(env, kv)
 	}
 	path := os.Getenv("PATH")
+	if !strings.HasPrefix(path, "/opt/veriftools/go1.26.8/bin:") {
+		path = "/opt/veriftools/go1.26.8/bin:" + path
+		os.Setenv("PATH", path) // exec.LookPath("go") consults the process environment
+	}
 	env = append(env,
-		"PATH=/opt/veriftools/go1.26.8/bin:"+path,
+		"PATH="+path,
 		"GOTOOLCHAIN=local", "GOFLAGS=-mod=mod", "GOPROXY=off", "GOSUMDB=off", "GOWORK=off",
 		"CGO_ENABLED=0", "GOOS=linux", "GOARCH=amd64")
 	return env
